@@ -10,7 +10,7 @@ pid, n, mdir, log = sys.argv[1], sys.argv[2], Path(sys.argv[3]), Path(sys.argv[4
 note = sys.argv[5] if len(sys.argv) > 5 else ""
 d = V / "seeded" / ("%s-%s" % (pid, n))
 d.mkdir(parents=True, exist_ok=True)
-for f in ("patch.diff", "demo.c", "demo.sh", "notes.txt"):
+for f in [p.name for p in mdir.iterdir() if p.is_file() and p.suffix in (".diff", ".c", ".sh", ".txt", ".h", ".py")]:
     if (mdir / f).exists():
         shutil.copy(mdir / f, d / f)
 r = json.loads(log.read_text())
